@@ -2,7 +2,7 @@
    payload conventions: order = list of classes (lists of N); profile = list of orders (instance.orders);
    alts / axis / D = list of N; V = list of indices into the profile; k = int. *)
 From Coq Require Import List ZArith NArith String.
-From PrefVerif Require Import Lib.Val Model.SP Model.Deletion.
+From PrefVerif Require Import Lib.Val Model.SP Model.Deletion Model.ILPEnc.
 Import ListNotations.
 Open Scope string_scope.
 
@@ -33,7 +33,34 @@ Definition op_alt_ok (v : val) : val :=
 Definition op_vot_ok (v : val) : val :=
   ebool (vot_del_ok (d_alts (dnth 0 v)) (d_profile (dnth 1 v)) (d_idx (dnth 2 v))).
 
+(* ---- the mirrored ILP models (Model/ILPEnc.v) ----
+   var: (0 a b) leftof_a_b | (1 a) pos_a | (2 v) delVoter_v | (3 a) delAlt_a ;  term: (coeff var) ;
+   constraint: (terms rel rhs), rel 0 <=, 1 >=, 2 == , coefficients and rhs multiplied by 2 ;  vdecl: (var lb ub) ;
+   answer: (vdecls constraints objective-terms) *)
+Definition e_var (v : var) : val :=
+  match v with
+  | LeftOf a b => VL [VI 0%Z; enat a; enat b]
+  | Pos a => VL [VI 1%Z; enat a]
+  | DelVoter v => VL [VI 2%Z; enat v]
+  | DelAlt a => VL [VI 3%Z; enat a]
+  end.
+Definition e_term (t : Z * var) : val := VL [VI (fst t); e_var (snd t)].
+Definition e_rel (r : rel) : val := VI (match r with Le => 0 | Ge => 1 | Eq => 2 end)%Z.
+Definition e_cstr (c : cstr) : val := VL [elist e_term (c_lhs c); e_rel (c_rel c); VI (c_rhs c)].
+Definition e_vdecl (d : vdecl) : val := VL [e_var (v_var d); VI (v_lb d); VI (v_ub d)].
+Definition e_ilp (M : ilp) : val :=
+  VL [elist e_vdecl (i_vars M); elist e_cstr (i_cstrs M); elist e_term (i_obj M)].
+(* (kind alts profile) -> model ; kind 0 sp, 1 voter deletion, 2 alternative deletion *)
+Definition op_ilp_constraints (v : val) : val :=
+  let alts := d_alts (dnth 1 v) in
+  let p := d_profile (dnth 2 v) in
+  match dnat (dnth 0 v) with
+  | 0 => e_ilp (sp_ilp alts p)
+  | 1 => e_ilp (votdel_ilp alts p)
+  | _ => e_ilp (altdel_ilp alts p)
+  end.
+
 Definition ops : optable :=
   [ ("c12.min_alt", op_min_alt); ("c12.min_vot", op_min_vot); ("c12.cert_alt", op_cert_alt);
     ("c12.cert_vot", op_cert_vot); ("c12.core_alt", op_core_alt); ("c12.core_vot", op_core_vot);
-    ("c12.alt_ok", op_alt_ok); ("c12.vot_ok", op_vot_ok) ].
+    ("c12.alt_ok", op_alt_ok); ("c12.vot_ok", op_vot_ok); ("c12.ilp_constraints", op_ilp_constraints) ].
